@@ -46,10 +46,12 @@ impl Cfg {
         let formats = ["compact", "json"];
         let algs = ["ES256", "EdDSA", "HS256"];
         let holders = [None, Some("es256"), Some("eddsa")];
+        // every (format, issuer algorithm) pair within the first 6 values, all 36 combinations
+        // of the four coordinates within the first 36
         self.format = formats[i % 2].to_string();
-        self.alg = algs[(i + i / 2) % 3].to_string();
-        self.decoys = (i / 3 + i) % 2 == 1;
-        self.holder = holders[(i + i / 6) % 3].map(String::from);
+        self.alg = algs[(i / 2) % 3].to_string();
+        self.decoys = (i + i / 6) % 2 == 1;
+        self.holder = holders[(i + i / 12) % 3].map(String::from);
         self
     }
     pub fn kb(&self) -> Option<Kb> {
